@@ -1,6 +1,52 @@
-(* C14 — The bit reader delivers each bit once, in order, under any mix of operations.
-   Proved so far, on the abstract reader every parser is written against: *)
-From H263V Require Import base.Prelude model.Types model.Reader proofs.ReaderLemmas proofs.LoopBound.
+(* C14 — The bit reader delivers each bit once, in order, under any mix of operations. *)
+From H263V Require Import base.Prelude model.Types model.Reader model.ReaderConcrete spec.SpecHeader
+  proofs.ReaderLemmas proofs.LoopBound proofs.HeaderRoundTrip proofs.ReaderRefine.
+
+(* THE PROPERTY, for every mix of operations: `run_ops` interprets a tree of reader operations (peeks, reads, signed
+   reads, skips, bytes, VLC reads, UMV reads, start-code probes, commits, source growth, transactions that succeed
+   or fail, transaction unions, look-aheads, nested to any depth) on the CONCRETE machine of reader.rs (source,
+   retained byte buffer, bit cursor, byte-wise refill, the width-typed accumulator loop, checkpoints and rollback);
+   `run_ops_a` interprets the same tree on a plain list of unread bits, where a peek, a look-ahead, a failed read and
+   a failed transaction leave the list as it was BY CONSTRUCTION and a successful read removes exactly its bits
+   from the front.  From any byte string and for every tree (widths >= 0; commits and growth between, not inside,
+   transactions - a checkpoint is an offset into the buffer that commit truncates) both produce the same values,
+   the same errors, the same final result, and the concrete state's unread bits are the abstract list. *)
+Theorem C14_concrete_refines_bit_list : forall bytes ops fuel,
+  Forall isbyte bytes -> forallb wf_op ops = true ->
+  let c := run_ops fuel false ops (from_source bytes) in
+  let a := run_ops_a fuel false ops (reader_of_bytes bytes) in
+  snd (fst c) = snd (fst a) /\ snd c = snd a /\ abs_reader (fst (fst c)) = fst (fst a).
+Proof. exact reader_refines. Qed.
+
+(* ... and from any reachable concrete state, not only a fresh one *)
+Theorem C14_refines_from_any_state : forall fuel strict ops r, cinv r -> forallb wf_op ops = true ->
+  rel r (forallb pure_op ops) (run_ops fuel strict ops r) (run_ops_a fuel strict ops (abs_reader r)).
+Proof. exact run_ops_refines. Qed.
+
+(* most-significant bit first: reading n bits where the n-bit big-endian code of v starts returns v and leaves
+   exactly what follows *)
+Theorem C14_msb_first : forall w n v rest pos, 0 <= n <= w -> 0 <= v < 2 ^ n ->
+  read_bits w n (mkReader (bits_of (Z.to_nat n) v ++ rest) pos) = Ok (v, mkReader rest (pos + n)).
+Proof. exact read_bits_of. Qed.
+
+(* signed reads are two's-complement: an n-bit field with its top bit set reads as value - 2^n *)
+Theorem C14_signed_is_twos_complement : forall w n r v, 0 < n ->
+  peek_signed_bits w n r = Ok v ->
+  exists u, peek_bits w n r = Ok u /\ v = (if Z.testbit u (n - 1) then u - 2 ^ n else u).
+Proof.
+  intros w n r v Hn H. unfold peek_signed_bits in H. destruct (peek_bits w n r) as [u|e|p|]; cbn [bind] in H; try discriminate.
+  destruct (n =? 0) eqn:E; [lia|]. exists u. split; [reflexivity|]. destruct (Z.testbit u (n - 1)); inversion H; reflexivity.
+Qed.
+
+(* non-vacuity: a tree with a failed transaction, a look-ahead, a signed read and a commit, evaluated on both machines *)
+Example C14_refinement_example :
+  let ops := [ORead U8 3; OTx [ORead U16 9; OSkip 40] false; OLookahead [OReadS I16 5]; OReadS I16 5; OCommit; OStartCode false; OU8] in
+  forallb wf_op ops = true /\
+  snd (fst (run_ops 50 false ops (from_source [181; 0; 0; 128; 7]))) =
+    [TVal 5; TVal 336; TErr EEof; TClose 0 (Err EEof); TVal (-11); TClose 2 (Ok (Some tt)); TVal (-11); TUnit; TSome 0; TVal 0].
+Proof. cbv zeta. split; vm_compute; reflexivity. Qed.
+
+(* Also, on the abstract reader every parser is written against: *)
 
 (* a fixed-length read returns the next n bits most-significant first: value in 0..2^n-1 ... *)
 Theorem C14_fixed_read_msb_first : forall w n r v r', 0 <= n -> read_bits w n r = Ok (v, r') -> 0 <= v < 2 ^ n.
@@ -16,6 +62,10 @@ Theorem C14_start_code_window : forall r k,
   recognize_start_code false r = Ok (Some k) -> 0 <= k <= realignment_bits r + 1 /\ k <= 8.
 Proof. exact recognize_start_code_window. Qed.
 
+Print Assumptions C14_concrete_refines_bit_list.
+Print Assumptions C14_refines_from_any_state.
+Print Assumptions C14_msb_first.
+Print Assumptions C14_signed_is_twos_complement.
 Print Assumptions C14_fixed_read_msb_first.
 Print Assumptions C14_read_consumes_exactly.
 Print Assumptions C14_start_code_window.
